@@ -32,6 +32,7 @@ namespace {
 const QString kSenderJid = QStringLiteral("alice@example.org/s");
 const QString kReceiverJid = QStringLiteral("bob@example.org/r");
 const QString kThirdJid = QStringLiteral("mallory@example.org/x");
+const QString kOtherResourceJid = QStringLiteral("alice@example.org/other");  // the sender's account, another client
 const QString kSid = QStringLiteral("sid-c19");
 const char *kNsIbb = "http://jabber.org/protocol/ibb";
 
@@ -164,8 +165,11 @@ struct Exec {
 
     QBuffer sendBuf;  // the devices outlive the clients (and so the jobs that point to them)
     CountingBuffer recvBuf;
-    std::unique_ptr<TestClient> a, b;
+    std::unique_ptr<TestClient> a, ownB;
+    TestClient *b = nullptr;   // the receiving client (shared by the two lanes of a twin execution)
     QXmppTransferManager *ma = nullptr, *mb = nullptr;
+    QString myJid = kSenderJid;   // full JID this sender's stanzas are stamped with
+    Exec *peer = nullptr;         // twin execution: the other sender talking to the same receiver
     QPointer<QXmppTransferJob> sJob, rJob;
     ScriptSender ss;
     int rFinished = 0, sFinished = 0;
@@ -180,21 +184,30 @@ struct Exec {
 
     bool annSize = true, annHash = true;  // what the offer announces about the file
 
-    Exec(Ctx &c, const QByteArray &f, int blockSize, bool scriptSender, quint64 seed, const QString &ann)
-        : ctx(c), file(f), bs(blockSize), script(scriptSender), rng(seed)
+    Exec(Ctx &c, const QByteArray &f, int blockSize, bool scriptSender, quint64 seed, const QString &ann,
+         Exec *shareReceiverOf = nullptr, const QString &senderJid = kSenderJid)
+        : ctx(c), file(f), bs(blockSize), script(scriptSender), rng(seed), myJid(senderJid)
     {
         annSize = ann == "both" || ann == "size";
         annHash = ann == "both" || ann == "hash";
-        TestClient::resetIdCounter();
-        b = std::make_unique<TestClient>(TestClient::NoExtensions, kReceiverJid);
-        isolateLogger(b.get());
-        b->fakeSession(false);
-        mb = new QXmppTransferManager;
-        mb->setSupportedMethods(QXmppTransferJob::InBandMethod);
-        b->addExtension(mb);
+        if (shareReceiverOf) {
+            b = shareReceiverOf->b;
+            mb = shareReceiverOf->mb;
+            peer = shareReceiverOf;
+            shareReceiverOf->peer = this;
+        } else {
+            TestClient::resetIdCounter();
+            ownB = std::make_unique<TestClient>(TestClient::NoExtensions, kReceiverJid);
+            b = ownB.get();
+            isolateLogger(b);
+            b->fakeSession(false);
+            mb = new QXmppTransferManager;
+            mb->setSupportedMethods(QXmppTransferJob::InBandMethod);
+            b->addExtension(mb);
+        }
         QObject::connect(mb, &QXmppTransferManager::fileReceived, mb, [this](QXmppTransferJob *job) {
-            if (rJob) {
-                return;  // a second offer is not part of any behaviour: leave it unanswered
+            if (rJob || job->jid() != myJid) {
+                return;  // not this sender's offer (or a second one, not part of any behaviour): left unanswered
             }
             rJob = job;
             QObject::connect(job, &QXmppTransferJob::finished, job, [this]() { ++rFinished; });
@@ -210,7 +223,7 @@ struct Exec {
             ss.annSize = annSize;
             ss.annHash = annHash;
         } else {
-            a = std::make_unique<TestClient>(TestClient::NoExtensions, kSenderJid);
+            a = std::make_unique<TestClient>(TestClient::NoExtensions, myJid);
             isolateLogger(a.get());
             a->fakeSession(false);
             ma = new QXmppTransferManager;
@@ -267,11 +280,13 @@ struct Exec {
             it.id = el.attribute("id");
             const auto type = el.attribute("type");
             it.t = type == "result" ? "res" : (type == "error" ? "err" : "other");
-            if (el.attribute("to") != kSenderJid) {
+            if (el.attribute("to") == myJid) {
+                r2s.append(it);
+            } else if (peer && el.attribute("to") == peer->myJid) {
+                peer->r2s.append(it);
+            } else {
                 ++lostReplies;  // nobody is there
-                continue;
             }
-            r2s.append(it);
         }
     }
 
@@ -318,7 +333,7 @@ struct Exec {
         }
         Item it = s2r.takeFirst();
         auto el = it.el();
-        el.setAttribute("from", it.from == "S" ? kSenderJid : kThirdJid);
+        el.setAttribute("from", it.from == "S" ? myJid : (it.from == "Y" ? kOtherResourceJid : kThirdJid));
         const int before = r2s.size();
         b->injectElement(el);
         collectFromReceiver();
@@ -357,7 +372,7 @@ struct Exec {
 
     Item forgedAck(const QString &id)
     {
-        return forged(QStringLiteral("<iq id='%1' type='result' to='%2'/>").arg(id.toHtmlEscaped(), kSenderJid), "res", id);
+        return forged(QStringLiteral("<iq id='%1' type='result' to='%2'/>").arg(id.toHtmlEscaped(), myJid), "res", id);
     }
 
     bool faultPossible(const QString &k) const
@@ -428,27 +443,52 @@ struct Exec {
         return true;
     }
 
-    // a third party guesses the next sequence number
-    bool doInject(const QString &w, int &seqOut)
+    // An element that is not part of the stream: <open/>, a block with the sequence number the
+    // receiver expects next, or <close/>, carrying the RIGHT session id, from a stranger (w "from"),
+    // from another resource of the sender's account (w "res"), or from the sender for another
+    // session (w "sid").
+    bool doInject(const QString &w, const QString &t, int &seqOut)
     {
-        if (!rJob || rJob->state() != QXmppTransferJob::TransferState) {
+        if (!rJob) {
             return false;
         }
-        QByteArray garbage(qMax(1, qMin(bs, 64)), '\0');
-        for (auto &c : garbage) {
-            c = char(rng());
+        const QString sid = w == "sid" ? kSid + "x" : kSid;
+        QString xml;
+        seqOut = 0;
+        if (t == "data") {
+            QByteArray garbage(qMax(1, qMin(bs, 64)), '\0');
+            for (auto &c : garbage) {
+                c = char(rng());
+            }
+            QXmppIbbDataIq iq;
+            iq.setTo(kReceiverJid);
+            iq.setSid(sid);
+            seqOut = accepted % 65536;
+            iq.setSequence(quint16(seqOut));
+            iq.setPayload(garbage);
+            iq.setId("forged-data");
+            xml = toXmlString(iq);
+        } else if (t == "open") {
+            QXmppIbbOpenIq iq;
+            iq.setTo(kReceiverJid);
+            iq.setSid(sid);
+            iq.setBlockSize(bs);
+            iq.setId("forged-open");
+            xml = toXmlString(iq);
+        } else if (t == "close") {
+            QXmppIbbCloseIq iq;
+            iq.setTo(kReceiverJid);
+            iq.setSid(sid);
+            iq.setId("forged-close-3rd");
+            xml = toXmlString(iq);
+        } else {
+            fprintf(stderr, "ibb: unknown element %s\n", qPrintable(t));
+            exit(2);
         }
-        QXmppIbbDataIq iq;
-        iq.setTo(kReceiverJid);
-        iq.setSid(w == "sid" ? kSid + "x" : kSid);
-        seqOut = accepted % 65536;
-        iq.setSequence(quint16(seqOut));
-        iq.setPayload(garbage);
-        iq.setId("forged-data");
-        Item it = forged(toXmlString(iq), "data", iq.id());
+        Item it = forged(xml, t, "forged-" + t);
         it.seq = seqOut;
         it.sid = w == "sid" ? "bad" : "ok";
-        it.from = w == "from" ? "X" : "S";
+        it.from = w == "from" ? "X" : (w == "res" ? "Y" : "S");
         s2r.prepend(it);
         return true;
     }
@@ -544,7 +584,8 @@ void runBehaviour(Ctx &ctx, const QString &caseId, const QJsonObject &beh, int i
         } else if (act == "Inject") {
             int seq = 0;
             ev["w"] = s["w"].toString();
-            possible = x.doInject(s["w"].toString(), seq);
+            ev["t"] = s["t"].toString("data");
+            possible = x.doInject(s["w"].toString(), s["t"].toString("data"), seq);
             ev["seq"] = seq;
         } else if (act == "Burst") {
             const int k = s["k"].toInt();
@@ -610,7 +651,98 @@ void runBehaviour(Ctx &ctx, const QString &caseId, const QJsonObject &beh, int i
     ctx.emit_({ { "e", "End" }, { "o", o } });
 }
 
+// Two peers offer a file to the same receiver with the SAME session id at the same time (two
+// scripted senders: the usual one and a stranger "X" or another resource "Y" of its account), their
+// stanzas interleaved by a seeded schedule.  Incoming jobs are found by full JID and session id, so
+// the two transfers are independent: each lane's own steps and observations must be a fault-free
+// execution of spec/Ibb.tla by themselves.  The trace therefore holds the two lanes as two
+// executions ("t<k>a", "t<k>b"), each with the steps of that lane only.
+// Behaviour: {"peer2":"X"|"Y","bs":3,"size":7,"size2":9,"ann":"both","cseed":..,"sched":..}
+void runTwin(Ctx &ctx, const QString &caseId, const QJsonObject &beh, int idx)
+{
+    const int bs = qMax(1, beh["bs"].toInt(4096));
+    const quint64 seed = beh.contains("cseed") ? quint64(beh["cseed"].toDouble()) : ctx.seed * 1000003ULL + quint64(idx);
+    const QString ann = beh["ann"].toString("both");
+    const QString jid2 = beh["peer2"].toString("X") == "Y" ? kOtherResourceJid : kThirdJid;
+    const qint64 sizes[2] = { qint64(beh["size"].toDouble()), qint64(beh["size2"].toDouble()) };
+    const QByteArray files[2] = { randomBytes(sizes[0], seed), randomBytes(sizes[1], seed ^ 0x5555aaaa5555aaaaULL) };
+
+    Exec l1(ctx, files[0], bs, true, seed + 1, ann);
+    Exec l2(ctx, files[1], bs, true, seed + 2, ann, &l1, jid2);
+    Exec *lanes[2] = { &l1, &l2 };
+    QVector<QJsonObject> lines[2];
+    std::mt19937_64 sched(quint64(beh["sched"].toDouble()) ^ seed);
+
+    const qint64 guard = 8 * ((sizes[0] + sizes[1]) / bs + 2) + 64;
+    for (qint64 moves = 0; moves < guard; ++moves) {
+        QCoreApplication::processEvents();
+        l1.collectFromReceiver();
+        // what can move now: (lane, step)
+        QVector<QPair<int, QString>> can;
+        for (int i = 0; i < 2; i++) {
+            if (!lanes[i]->offered) {
+                can.append({ i, "Offer" });
+            }
+            if (!lanes[i]->s2r.isEmpty()) {
+                can.append({ i, "RDeliver" });
+            }
+            if (!lanes[i]->r2s.isEmpty()) {
+                can.append({ i, "SDeliver" });
+            }
+        }
+        if (can.isEmpty()) {
+            break;
+        }
+        const auto mv = can[int(sched() % quint64(can.size()))];
+        Exec &x = *lanes[mv.first];
+        if (mv.second == "Offer") {
+            x.doOffer();
+        } else if (mv.second == "RDeliver") {
+            x.doRDeliver();
+        } else {
+            x.doSDeliver();
+        }
+        lines[mv.first].append({ { "e", mv.second }, { "o", x.observe(true) } });
+    }
+    for (int i = 0; i < 3; i++) {
+        QCoreApplication::sendPostedEvents();
+        QCoreApplication::processEvents();
+    }
+    for (int i = 0; i < 2; i++) {
+        Exec &x = *lanes[i];
+        ctx.reset(caseId + (i ? "b" : "a"), { { "n", int((sizes[i] + bs - 1) / bs) }, { "size", double(sizes[i]) }, { "bs", bs },
+                                              { "sender", "script" }, { "ann", ann }, { "lane", i + 1 }, { "jid", x.myJid } });
+        for (const auto &ln : std::as_const(lines[i])) {
+            ctx.emit_(ln);
+        }
+        auto o = x.observe(true);
+        const auto got = x.recvBuf.data();
+        o["rlen"] = double(got.size());
+        o["slen"] = double(files[i].size());
+        o["rsha"] = QString::fromLatin1(QCryptographicHash::hash(got, QCryptographicHash::Sha1).toHex());
+        o["ssha"] = QString::fromLatin1(QCryptographicHash::hash(files[i], QCryptographicHash::Sha1).toHex());
+        o["rfin"] = x.rFinished;
+        o["sfin"] = x.sFinished;
+        o["rerrsig"] = jarr(x.rErrSig);
+        o["serrsig"] = jarr(x.sErrSig);
+        o["lost"] = x.lostReplies;
+        o["offered"] = x.offered;
+        ctx.emit_({ { "e", "End" }, { "o", o } });
+    }
+}
+
 }  // namespace
+
+QXV_DRIVER(ibbtwin)
+{
+    auto behs = ctx.behaviours();
+    int n = 0;
+    for (const auto &bv : behs) {
+        ++n;
+        runTwin(ctx, QString("t%1").arg(n), bv.toObject(), n);
+    }
+    return 0;
+}
 
 QXV_DRIVER(ibb)
 {
